@@ -44,7 +44,7 @@ struct Block {
 /// collateral query ("collateral"): blocks are visited in name order
 const NAME_POOL: [&str; 12] = ["a_src", "blk", "bravo", "c", "collateral_extra", "cz", "dust", "fee_payer", "main", "source", "x", "zeta"];
 
-fn program(blocks: &[Block], store: &[Utxo], collateral: Option<i64>, names: &[String]) -> Program {
+fn program(blocks: &[Block], store: &[Utxo], collateral: Option<i64>, names: &[String], refs: &[usize]) -> Program {
     let mut inputs = vec![];
     for (i, b) in blocks.iter().enumerate() {
         let mut min = E::Ada(Box::new(E::Int(b.lovelace as i128)));
@@ -66,6 +66,7 @@ fn program(blocks: &[Block], store: &[Utxo], collateral: Option<i64>, names: &[S
         txs: vec![TxDef {
             name: "spend".into(),
             inputs,
+            references: refs.iter().enumerate().map(|(i, k)| (format!("refin{i}"), E::UtxoRef(store[*k].r#ref.txid.clone(), store[*k].r#ref.index as u64))).collect(),
             collateral: collateral.map(|c| Collateral { from: Some(E::Party("Owner".into())), min_amount: Some(E::Ada(Box::new(E::Int(c as i128)))), rf: None }),
             outputs: vec![Output { to: Some(E::Party("Dest".into())), amount: Some(E::Ada(Box::new(E::Int(1_000_000)))), ..Default::default() }],
             ..Default::default()
@@ -91,7 +92,7 @@ impl Property for C04 {
         }
     }
     fn required_features(&self, _tier: Tier) -> Vec<String> {
-        ["resolve/ok", "resolve/err", "resolve_tx/ok", "blocks/4", "shape/many", "shape/shared-ref", "shape/collateral", "shape/collateral-between-inputs", "store/too-small", "store/exact"].iter().map(|s| s.to_string()).collect()
+        ["resolve/ok", "resolve/err", "resolve_tx/ok", "blocks/4", "shape/many", "shape/shared-ref", "shape/collateral", "shape/collateral-between-inputs", "shape/reference-to-wallet-utxo", "store/too-small", "store/exact"].iter().map(|s| s.to_string()).collect()
     }
     fn run_case(&self, ctx: &mut Ctx, phase: &str, idx: u64, rng: &mut Rng) {
         let k = 1 + rng.usize(4);
@@ -158,7 +159,13 @@ impl Property for C04 {
         if collateral.is_some() && names.iter().any(|n| n.as_str() < "collateral") && names.iter().any(|n| n.as_str() > "collateral") {
             ctx.count("shape/collateral-between-inputs");
         }
-        let prog = program(&blocks, &store, collateral, &names);
+        // reference inputs that name UTxOs of the same wallet (a UTxO may be read and spent in one template:
+        // it still has to appear among the spent inputs)
+        let refs: Vec<usize> = if n > 0 && rng.chance(1, 3) { (0..1 + rng.usize(2)).map(|_| rng.usize(n)).collect() } else { vec![] };
+        if !refs.is_empty() {
+            ctx.count("shape/reference-to-wallet-utxo");
+        }
+        let prog = program(&blocks, &store, collateral, &names, &refs);
         let src = print_program(&prog, Layout::plain());
         let Ok(lowered) = front(&src, "spend") else {
             ctx.count("front/rejected");
